@@ -3,7 +3,7 @@ import json
 
 import fam_fs as F
 from pipeline import PropSpec
-from C10 import FS_ANCHORS, FS_CONSTS, nontrivial as c10_nontrivial
+from C10 import FS_ANCHORS, FS_CONSTS, KLASS_IDS, nontrivial as c10_nontrivial
 
 HEADER = ("From TV.Lib Require Import Base.\nFrom TV.Fs Require Import FsImpl FsSpec FsSafe FsDurable.\n"
           "Open Scope N_scope.\n")
@@ -73,7 +73,8 @@ class Spec(PropSpec):
     pid = "C07"
     subsys = "Fs"
     props_file = "C07.v"
-    theorems = []
+    theorems = ["c07_crash_image", "c07_synced_never_lost", "c07_unsynced_entry_gone", "c07_random_sync",
+                "c07_rename_file_refuted", "c07_recreate_refuted", "c07_kind_swap_refuted", "c07_nonvacuous"]
     coq_targets = ["C07.vo"]
     consts = FS_CONSTS
     anchors = FS_ANCHORS + [("crates/turmoil/src/sim.rs", "crash")]
@@ -89,7 +90,10 @@ class Spec(PropSpec):
         "expectations are asserted for entries all of whose ancestors are durable; once a crash meets a dangling durable subtree nothing more is asserted for that host",
         "symlinks, hard links, permissions, timestamps are outside the property; io_uring fsync is covered by C18",
     ]
-    partial_note = None
+    partial_note = ("c07_crash_image is proved for block_size None (torn writes are covered by the FsDurable model, the "
+                    "correspondence and the oracle only) and for the alphabet without create_dir_all / remove_dir_all / "
+                    "remove_dir; it holds outside the known classes RenameFile, RenameSelf, RenameDir, StaleHandle, Recreate, "
+                    "KindSwap, OpenOptsInvalid, RootOp")
 
     def gen_cases(self, ctx):
         rng = ctx.rng
@@ -119,15 +123,19 @@ class Spec(PropSpec):
         n = case["cfg"].get("nhosts", 1)
         bs = case["cfg"].get("block_size") or 0
         dterm = term.replace("hrun_enc %d%%nat %d%%nat" % (n, bs), "hdrun_enc %d%%nat %d%%nat" % (n, bs), 1)
-        return "(%s, %s)" % (term, dterm), probes, problems
+        cterm = term.replace("hrun_enc", "hdclasses_enc", 1)
+        return "(%s, %s, %s)" % (term, dterm, cterm), probes, problems
 
     def compare(self, case, obs, model, probes):
         if isinstance(model, tuple) and model and model[0] == "error":
             return "model evaluation failed: %s" % str(model[1])[-400:]
-        impl_m, (dur_m, dur_flags) = model
+        impl_m, (dur_m, dur_flags), klasses = model
         d = F.compare(case, obs, impl_m, probes)
         if d:
             return d
+        py = sorted(KLASS_IDS[k] for k in F.history_features(case, obs) if k in KLASS_IDS)
+        if not any(dur_flags) and py != sorted(set(klasses)):
+            return "known-class predicates disagree: python %s, FsDurable.v %s" % (py, sorted(set(klasses)))
         exp, flags = durable_expected(case, obs)
         for i, (a, fl) in enumerate(zip(exp, flags)):
             if bool(dur_flags[i]) != fl:
